@@ -164,6 +164,10 @@ def bnot(c):
 
 
 # ---- constraint specs ------------------------------------------------------------------------------------------
+from xdsl.dialects.builtin import FixedBitwidthType  # noqa: E402
+from xdsl.ir import BuiltinAttribute, TypeAttribute  # noqa: E402
+
+ABSTRACT = {"TypeAttribute": TypeAttribute, "FixedBitwidthType": FixedBitwidthType, "BuiltinAttribute": BuiltinAttribute}
 CLASSES = {"IntAttr": IntAttr, "StringAttr": StringAttr, "IntegerType": IntegerType, "UnitAttr": UnitAttr, "ArrayAttr": ArrayAttr, "GPair": GPair}
 
 
@@ -191,6 +195,8 @@ def build(s):
         return AnyAttr()
     if k == "base":
         return BaseAttr(CLASSES[s[1]])
+    if k == "abase":
+        return BaseAttr(ABSTRACT[s[1]])
     if k == "eq":
         return EqAttrConstraint(cattr(s[1]))
     if k == "set":
@@ -237,6 +243,8 @@ def sat(s, a, sigma):
         return True
     if k == "base":
         return isinstance(a, CLASSES[s[1]])
+    if k == "abase":
+        return isinstance(a, ABSTRACT[s[1]])
     if k == "eq":
         return aeq(a, cattr(s[1]))
     if k == "set":
@@ -270,6 +278,8 @@ def accepts(s, a):
 
 
 def has_set(c):
+    if isinstance(c, AnyOf) and any(isinstance(k, type) for k in c._based_constrs):
+        pass
     """does verification hash the attribute (set membership)? then payload ranges are narrowed: hashing concretises by forking"""
     if isinstance(c, AttrSetConstraint):
         return True
@@ -296,6 +306,8 @@ def sid(s):
         return "Any"
     if k == "base":
         return s[1]
+    if k == "abase":
+        return "Abs" + s[1]
     if k == "eq":
         return "Eq" + aid(s[1])
     if k == "set":
@@ -355,6 +367,18 @@ def gen_specs(tier):
           ("anyof", [("set", [I0, ("str", "a")]), ("eq", ("str", "b"))]), ("anyof", [("anyof", [("eq", I0), ("base", "StringAttr")]), ("eq", I1)]), ("anyof", [("any",), ("eq", I1)]),
           ("anyof", [("param", "IntegerType", [("eq", ("int", 32)), ("any",)]), ("param", "IntegerType", [("eq", ("int", 64)), ("any",)])]),
           ("anyof", [("param", "IntegerType", [("eq", ("int", 32)), ("any",)]), ("eq", ("ity", 16))])]
+    # unions with an abstract (non-final) base class alternative, in both orders; overlapping ones must be refused
+    concrete = [("eq", ("ity", 32)), ("eq", I0), ("base", "IntegerType"), ("base", "StringAttr"), ("param", "IntegerType", [("eq", ("int", 32)), ("any",)]), ("set", [("ity", 8), ("ity", 16)]), ("base", "GPair"),
+                ("param", "GPair", [ALPHA["I"], ALPHA["S"]]), ("set", [I0, ("ity", 8)])]
+    for ab in ABSTRACT:
+        S.append(("abase", ab))
+        for c in concrete:
+            S.append(("anyof", [c, ("abase", ab)]))
+            S.append(("anyof", [("abase", ab), c]))
+            S.append(("or", c, ("abase", ab)))
+        S.append(("anyof", [("eq", I0), ("abase", ab), ("base", "StringAttr")]))
+        S.append(("anyof", [("base", "StringAttr"), ("eq", ("ity", 32)), ("abase", ab)]))
+        S.append(("allof", [("abase", ab), ("base", "IntegerType")]))
     out, seen = [], set()
     for s in S:
         i = sid(s)
